@@ -421,6 +421,10 @@ class Reader:
                 f = self.fields[first + i]
                 f.role = "peg." + r
                 f.ctx = {"blen": blen, "nconst": nconst, "index": i}
+                if r == "rule":
+                    # words that are data, not instructions (literal bytes, set bitmaps): a rule reference must
+                    # never be allowed to land there
+                    f.ctx["data"] = [j for j, rj in enumerate(roles) if rj in ("litbytes", "setword") and roles[j - 1] != rj][:6]
             for _ in range(nconst):
                 _, q = self.one(q, "peg.constant")
         else:
@@ -608,6 +612,7 @@ def field_values(f, r, total_len):
             if k in f.ctx:
                 c = f.ctx[k]
                 vals += [c, c - 1, c + 1, c + 2, c - 4, c + 4, c + 10, c + 11, c * 2 + 1, c - 15, c - 16]
+        vals += f.ctx.get("data", []) * 3
         vals += [v + 1, v - 1, 0, 1, v * 2, v // 2, -v, v + 4, v - 4, v + 128, 2, 3, 4, 5, 8, 16, 64, 255, 65536,
                  (1 << 31) - 1, -1, (1 << 31) - 11, (1 << 31) - 4, -(1 << 31)]
         if f.role in ("def.flags", "fiber.flags", "frame.flags"):
@@ -670,7 +675,8 @@ def hot_instr(f):
         return False
     op = f.val & 0x7F
     typ = INSTR_TYPES[op] if op < len(INSTR_TYPES) else "0"
-    return typ in ("L", "SL", "SD", "SC", "SES") or f.ctx.get("pc") == f.ctx.get("blen", 0) - 1
+    # (cncl: the only three-slot instruction that acts on a fiber)
+    return typ in ("L", "SL", "SD", "SC", "SES") or f.ctx.get("pc") == f.ctx.get("blen", 0) - 1 or op == OP_NAMES["cncl"]
 
 
 def field_weight(f):
